@@ -271,12 +271,23 @@ func buildFrames(c *mon.C, ms []msg, side ref.Side) []ref.Frame {
 	return frames
 }
 
+// invalidLead: a byte that no UTF-8 sequence can start with.
+func invalidLead(b byte) bool { return b >= 0x80 && b < 0xc2 || b > 0xf4 }
+
 var readerEntries = []string{"reader", "readmessage", "readdata", "reader-discard0"}
 
 // runMessages checks one message sequence on every entry point.
-func runMessages(c *mon.C, ms []msg, side ref.Side, nplans int) bool {
+func runMessages(c *mon.C, ms []msg, side ref.Side, nplans int, payloadMarks ...int) bool {
 	frames := buildFrames(c, ms, side)
 	stream, _, marks := gen.Encode(frames)
+	if len(payloadMarks) > 0 && len(frames) == 1 {
+		// transport read boundaries inside the payload of a single-frame message
+		hdr := len(stream) - len(frames[0].Payload)
+		marks = nil
+		for _, m := range payloadMarks {
+			marks = append(marks, hdr+m)
+		}
+	}
 	firstBad := -1
 	for i, m := range ms {
 		if m.op == ref.OpText && !utf8.Valid(m.payload) {
@@ -285,6 +296,9 @@ func runMessages(c *mon.C, ms []msg, side ref.Side, nplans int) bool {
 		}
 	}
 	ps := xport.Plans(c.Rng.Int63(), marks)
+	if len(payloadMarks) > 0 {
+		ps = []xport.Plan{{Kind: "marks", Marks: marks}, {Kind: "marks", Marks: marks, EOFWithData: true}}
+	}
 	for ei, entry := range readerEntries {
 		o := drive.Opts{Entry: entry, Side: side, CheckUTF8: true}
 		skipFirst := false
@@ -327,6 +341,9 @@ func runMessages(c *mon.C, ms []msg, side ref.Side, nplans int) bool {
 		for pi := 0; pi < nplans; pi++ {
 			plan := ps[(c.I+ei*2+pi*3)%len(ps)]
 			o.Buf = []int{1, 5, 4096}[(c.I+pi+ei)%3]
+			if len(payloadMarks) > 0 {
+				o.Buf = 4096 // the transport boundary, not the caller's buffer, cuts the chunk
+			}
 			c.Count(1)
 			obs := drive.Run(xport.NewChunker(stream, plan), o)
 			// compare data messages only (control events are C04's business)
@@ -342,6 +359,11 @@ func runMessages(c *mon.C, ms []msg, side ref.Side, nplans int) bool {
 					d = append(d, fmt.Sprintf("op=%x payload=% x cuts=%b empties=%b pings=%b emptyFinal=%v valid=%v", m.op, m.payload, m.cuts, m.empties, m.pings, m.emptyFinal, utf8.Valid(m.payload)))
 				}
 				return map[string]interface{}{"messages": d, "side": side, "entry": entry, "plan": plan.String(), "buf": o.Buf, "got": drive.EventStrings(got), "want": drive.EventStrings(want), "err": fmt.Sprint(obs.Err), "want_err": fmt.Sprint(wantErr)}
+			}
+			if skipFirst && firstBad == 0 && len(got) == 0 && obs.Err == wsutil.ErrInvalidUTF8 && (len(ms[0].payload) == 1 || invalidLead(ms[0].payload[0])) {
+				// the one byte read before Discard is already not UTF-8, or it is the whole
+				// (invalid) message: reporting it is as good as skipping it
+				continue
 			}
 			if d := drive.Diff(got, want, false); d != "" {
 				sig := "reader/events/" + entry
@@ -452,13 +474,120 @@ func subReaderSeqs() mon.Sub {
 	}
 }
 
+// torn lists multi-byte sequences (valid and boundary-invalid) that the
+// torn-runs sub cuts in the middle.
+var torn = [][]byte{
+	[]byte("é"), []byte("߿"), []byte("€"), []byte("ࠀ"), []byte("\U0001F600"), []byte("\U00010000"), []byte("\U0010ffff"),
+	{0xed, 0xa0, 0x80}, {0xed, 0x9f, 0xbf}, {0xe0, 0x80, 0x80}, {0xf4, 0x90, 0x80, 0x80}, {0xf0, 0x8f, 0xbf, 0xbf}, {0xc0, 0xaf}, {0xc2, 0x41},
+}
+
+var tornFillers = [][]byte{{'A'}, {0x00}, {0x7f}, {0x80}, {0xbf}, []byte("é"), {'A', 'B', 'C', 'D', 'E', 'F', 'G', 0xc3}}
+
+func tornCombos() (out [][2]int) {
+	for ti, t := range torn {
+		for cut := 1; cut < len(t); cut++ {
+			out = append(out, [2]int{ti, cut})
+		}
+	}
+	return
+}
+
+// subTornRuns: a chunk boundary (read boundary of the standalone reader, a
+// fragment boundary, a transport read boundary) strictly inside a multi-byte
+// sequence, followed by a run of r filler bytes before the awaited
+// continuation bytes arrive. Runs cover every length 0..40 and the word /
+// cache-line sizes around 64, 128 and 256, where a block-wise fast path would
+// take over.
+func subTornRuns() mon.Sub {
+	combos := tornCombos()
+	runs := []int{}
+	for r := 0; r <= 40; r++ {
+		runs = append(runs, r)
+	}
+	runs = append(runs, 47, 48, 49, 56, 63, 64, 65, 72, 127, 128, 129, 255, 256, 257)
+	prefixes := [][]byte{nil, []byte("caf"), []byte("12345678"), []byte("é")}
+	return mon.Sub{
+		Name: "torn-runs", Exhaustive: true, Required: true,
+		N: func(string) int { return len(combos) * len(tornFillers) },
+		Do: func(c *mon.C) {
+			cb := combos[c.I%len(combos)]
+			fill := tornFillers[c.I/len(combos)]
+			seq, cut := torn[cb[0]], cb[1]
+			accepted := 0
+			for _, r := range runs {
+				for pi, pre := range prefixes {
+					for _, suf := range [][]byte{nil, []byte("z")} {
+						data := append([]byte(nil), pre...)
+						data = append(data, seq[:cut]...)
+						at := len(data) // the chunk boundary
+						for k := 0; k < r; k++ {
+							data = append(data, fill...)
+						}
+						data = append(data, seq[cut:]...)
+						data = append(data, suf...)
+						want := utf8.Valid(data)
+						if want {
+							accepted++
+						}
+						// standalone reader: source hands the two pieces separately; caller buffers large and exact
+						for _, plan := range []xport.Plan{{Kind: "marks", Marks: []int{at}}, {Kind: "marks", Marks: []int{at}, EOFWithData: true}, {Kind: "whole"}, {Kind: "fixed", K: 8}, {Kind: "fixed", K: 7, Hiccup: 3}} {
+							for _, b := range []int{4096, len(data) - at, 8, 9} {
+								if b <= 0 {
+									continue
+								}
+								c.Count(1)
+								u := wsutil.NewUTF8Reader(xport.NewChunker(data, plan))
+								p := make([]byte, b)
+								got, nread := false, 0
+								for {
+									n, e := u.Read(p)
+									nread += n
+									if e == io.EOF {
+										got = u.Valid()
+										break
+									}
+									if e != nil {
+										break
+									}
+								}
+								if got != want {
+									c.Fail(fmt.Sprintf("torn/standalone/want-%v", want), fmt.Sprintf("UTF8Reader verdict %v but utf8.Valid=%v", got, want), map[string]interface{}{"bytes": fmt.Sprintf("% x", data), "boundary_at": at, "run": r, "plan": plan.String(), "read_buf": b})
+									return
+								}
+								if got && nread != len(data) {
+									c.Fail("torn/standalone/bytes", fmt.Sprintf("valid stream of %d bytes delivered as %d bytes", len(data), nread), map[string]interface{}{"bytes": fmt.Sprintf("% x", data), "plan": plan.String(), "read_buf": b})
+									return
+								}
+							}
+						}
+						// reader level: the boundary is a fragment boundary, then a transport read boundary
+						if r%8 == 0 || r < 10 || pi == 1 {
+							side := []ref.Side{ref.SideServer, ref.SideClient}[(r+pi)%2]
+							if at-1 < 64 {
+								if !runMessages(c, []msg{{op: ref.OpText, payload: data, cuts: 1 << uint(at-1)}}, side, 2) {
+									return
+								}
+							}
+							if !runMessages(c, []msg{{op: ref.OpText, payload: data}}, side, 2, at) {
+								return
+							}
+						}
+					}
+				}
+			}
+			c.Classf("seq=%x cut=%d fill=%x", seq, cut, fill)
+			c.Sample(map[string]interface{}{"sequence": fmt.Sprintf("% x", seq), "cut_after": cut, "filler": fmt.Sprintf("% x", fill), "runs": len(runs), "contexts": len(prefixes) * 2, "valid_strings_seen": accepted})
+		},
+	}
+}
+
 func main() {
 	mon.Main(&mon.Spec{
 		Property: "C07",
 		Level:    "exploration",
-		Rule: "cases: standalone UTF8Reader on ALL byte strings of length <= 2 (quick) / <= 3 (thorough) plus an edge cover of 3- and 4-byte strings (every lead byte x continuation values {00,7f,80,8f,90,9f,a0,bf,c0,ff} in each position), each under every composition of its length and read buffers {1,2,3,4,64}; long strings built from 29 valid/invalid/truncated pieces under random chunk plans; " +
+		Rule: "cases: standalone UTF8Reader on ALL byte strings of length <= 2 (quick) / <= 3 (thorough) plus an edge cover of 3- and 4-byte strings (every lead byte x continuation values {00,7f,80,8f,90,9f,a0,bf,c0,ff} in each position), each under every composition of its length and read buffers {1,2,3,4,64}; long strings built from 29 valid/invalid/truncated pieces under random chunk plans; torn runs: 14 multi-byte sequences cut at every inner position, then a run of r filler bytes (r = 0..40 and around 48/64/128/256; 7 fillers) before the awaited continuation bytes, in 8 contexts, with the chunk boundary exactly at the tear as source read boundary, fragment boundary and transport read boundary; " +
 			"reader level: 13 boundary payloads x every fragmentation (all 2^(n-1) compositions) x {plain, ping at every gap, empty fragment at every gap, both} x {last fragment final, empty final continuation} x {Reader+CheckUTF8, ReadMessage, ReadData} x 3 chunk plans x caller buffers {1,5,4096}, the same bytes as binary, and random sequences of 1-4 messages mixing valid text, binary garbage and invalid text (incl. a first message discarded mid code point). Oracle: unicode/utf8.Valid. distinct = lead-byte / (payload, side, variant) / (message-kind sequence) classes.",
 		Assumptions: []string{"Go's unicode/utf8.Valid is the standard definition of UTF-8 (RFC 3629)", "an invalid message may be reported before its end"},
-		Subs:        []mon.Sub{subShort(), subLong(), subReaderSplits(), subReaderSeqs()},
+		Subs:        []mon.Sub{subShort(), subLong(), subTornRuns(), subReaderSplits(), subReaderSeqs()},
 	})
 }
